@@ -755,3 +755,83 @@ def soundness(obs, nonc=()):
         out.append(('unsound:cycle', 'accepted workflow has a dependency cycle among %r'
                     % sorted(n for n in nodeset if indeg[n] > 0)))
     return out
+
+
+# ------------------------------------------------------------------------------------------------ hand-computed cases
+def selfcheck():
+    """Hand-computed cases for the model itself; returns a list of mismatches (empty = fine)."""
+    bad = []
+
+    def expect(label, got, want):
+        if got != want:
+            bad.append('%s: got %r, expected %r' % (label, got, want))
+
+    def c(name, stage=0, refs=(), **kw):
+        d = {'name': name, 'stage': stage, 'command': {'executable': 'e', 'arguments': ' '.join(refs)}}
+        if refs:
+            d['references'] = list(refs)
+        d.update(kw)
+        return d
+
+    def faults(doc, platform=None, dw=None):
+        return analyse({'doc': doc, 'dowhile': dw}, platform).faults()
+
+    expect('valid chain', faults({'components': [c('A'), c('B', 0, ['A:ref']), c('C', 1, ['stage0.B:ref'])]}), [])
+    expect('dangling', faults({'components': [c('A'), c('B', 0, ['AA:ref'])]}), ['dangling'])
+    expect('relative name resolves in own stage only', faults({'components': [c('A'), c('B', 1, ['A:ref'])]}), ['dangling'])
+    expect('reserved folder is no component', faults({'components': [c('B', 0, ['data/x:copy', '/abs/p:ref'])]}), [])
+    expect('cycle 2', faults({'components': [c('A', 0, ['B:ref']), c('B', 0, ['A:ref'])]}), ['cycle'])
+    expect('self loop', faults({'components': [c('A', 0, ['A:ref'])]}), ['cycle'])
+    expect('duplicate', faults({'components': [c('A'), c('A')]}), ['duplicate'])
+    expect('same name other stage', faults({'components': [c('A'), c('A', 1)]}), [])
+    expect('unknown key', faults({'components': [c('A', comand={})]}), ['unknown-key'])
+    expect('unknown nested key', faults({'components': [c('A', workflowAttributes={'replicat': 1})]}), ['unknown-key'])
+    expect('user names are not keys', faults({'components': [c('A', variables={'anything': 1})],
+                                              'variables': {'default': {'global': {'whatever': 1}}}}), [])
+    expect('wrong type', faults({'components': [c('A', workflowAttributes={'replicate': ['x']})]}), ['wrong-type'])
+    expect('var for int is fine', faults({'components': [c('A', workflowAttributes={'replicate': '%(n)s'}, variables={'n': 1})]}), [])
+    expect('undefined', faults({'components': [c('A', command={'executable': 'e', 'arguments': '%(x)s'})]}), ['undefined-variable'])
+    expect('indirect undefined', faults({'variables': {'default': {'global': {'a': '%(b)s'}}},
+                                         'components': [c('A', command={'executable': 'e', 'arguments': '%(a)s'})]}),
+           ['undefined-variable'])
+    expect('platform layer defines', faults({'variables': {'p': {'global': {'x': 1}}},
+                                             'components': [c('A', command={'executable': 'e', 'arguments': '%(x)s'})]}, 'p'), [])
+    expect('other platform does not define', faults({'variables': {'p': {'global': {'x': 1}}},
+                                                     'components': [c('A', command={'executable': 'e', 'arguments': '%(x)s'})]}),
+           ['undefined-variable'])
+    an = analyse({'doc': {'components': [c('A', override={'p': {'comand': {}}})]}, 'dowhile': None}, None)
+    expect('inactive scope', (an.faults(False), an.faults(True), an.unknown[0][1]), ([], ['unknown-key'], 'inactive'))
+    an = analyse({'doc': {'platforms': ['default', 'p'], 'components': [
+        c('A', command={'executable': 'e', 'arguments': ['x']}, override={'p': {'command': {'arguments': 'ok'}}})]},
+        'dowhile': None}, 'p')
+    expect('overridden wrong value', [s for _, s in an.wrong], ['ineffective'])
+    expect('type verdicts', [type_verdict(v, t) for v, t in (
+        ('c11w', B), (['x'], S), (True, IV), ('3', IV), ('%(n)s', IV), ('%(n)s', B), ({'a': 1}, LS), (1.5, FV), (1, FV),
+        (None, SN), (None, S), ('yes', B))],
+        ['wrong', 'wrong', 'grey', 'grey', 'ok', 'grey', 'wrong', 'ok', 'grey', 'ok', 'grey', 'grey'])
+    ok_obs = {'nodes': ['stage0.A', 'stage0.B'], 'edges': [['stage0.A', 'stage0.B']],
+              'component_ids': ['stage0.A', 'stage0.B'],
+              'configs': {'stage0.A': {'references': ['data/f:copy'], 'stage': 0},
+                          'stage0.B': {'references': ['stage0.A:ref'], 'stage': 0}}}
+    expect('sound', soundness(ok_obs), [])
+    import copy
+    o = copy.deepcopy(ok_obs)
+    o['configs']['stage0.A']['references'] = ['stage0.B:ref']
+    expect('cycle through a reference the graph lacks', [s for s, _ in soundness(o)], ['unsound:cycle'])
+    o = copy.deepcopy(ok_obs)
+    o['configs']['stage0.B']['references'] = ['stage0.Z:ref']
+    expect('dangling accepted', [s for s, _ in soundness(o)], ['unsound:dangling-reference'])
+    o = copy.deepcopy(ok_obs)
+    o['nodes'] += ['stage1.0#L', 'stage1.1#L']
+    o['component_ids'] += ['stage1.0#L', 'stage1.1#L']
+    o['configs']['stage1.0#L'] = {'references': [], 'stage': 1}
+    o['configs']['stage1.1#L'] = {'references': ['stage1.0#L:ref'], 'stage': 1}
+    o['configs']['stage0.B']['references'] = ['stage1.L:ref']
+    expect('placeholder', soundness(o), [])
+    o = copy.deepcopy(ok_obs)
+    o['component_ids'].append('stage0.A')
+    expect('duplicate ids accepted', [s for s, _ in soundness(o)], ['unsound:duplicate-ids'])
+    o = copy.deepcopy(ok_obs)
+    o['configs']['stage0.B'] = {'error': 'boom'}
+    expect('unresolvable', [s for s, _ in soundness(o)], ['unsound:configuration-unresolvable'])
+    return bad
